@@ -193,10 +193,11 @@ pub const K_SWAP: u8 = 20;
 pub const K_DIVCAND: u8 = 21; // candidate infinite loop (G-div)
 pub const K_IOCHAIN: u8 = 22; // loop whose body updates and prints several cells around an input
 pub const K_CONSTLOOP: u8 = 23; // loop with a compile-time constant trip count (up to ~60)
-pub const K_COUNTED: u8 = 24; // with body
-pub const K_IFLIKE: u8 = 25; // with body
-pub const K_WHILE: u8 = 26; // with body
-pub const N_LEAF_KINDS: u8 = 24;
+pub const K_ARRAY: u8 = 24; // pointer-shifting loop over an array of known length
+pub const K_COUNTED: u8 = 25; // with body
+pub const K_IFLIKE: u8 = 26; // with body
+pub const K_WHILE: u8 = 27; // with body
+pub const N_LEAF_KINDS: u8 = 25;
 
 pub const DIV_CANDIDATES: &[&str] = &[
     "+[]", "+[.]", "+[>+<]", "[]", "+[-+]", "+[[-]+]", ",[.]", "+[>]", "-[+>+<-]", ",[]", ",[>+<]", "+[>.<]", ",[[.]]", "+[>,<]", "+[>[-]<]", "[.]", "-[.+]", "+[[>]<]",
@@ -502,6 +503,46 @@ fn render_idiom(i: &Idiom, n: i64, w: &mut W) {
             w.go(a);
             w.e("]");
         }
+        K_ARRAY => {
+            // k consecutive non-zero constants followed by a cleared cell, then a loop that works on
+            // each element and moves on: `[ body > ]` (the loop shifts the pointer by one per pass).
+            // The generator knows where it ends, so the text can return home afterwards.
+            let len = 2 + (k % 5) as i64;
+            let start = home + n; // beyond the cells the other idioms use
+            for j in 0..=len {
+                w.clear(start + j);
+            }
+            for j in 0..len {
+                w.addk(start + j, 1 + ((m as i64 + j) % 4));
+            }
+            w.go(start);
+            w.e("[");
+            match m % 6 {
+                0 => w.e("."),
+                1 => w.e("+."),
+                2 => w.e("-"),
+                3 => {
+                    // accumulate into a cell left of the array
+                    w.e("[-");
+                    let back = w.cur;
+                    w.go(a);
+                    w.e("+");
+                    w.go(back);
+                    w.e("]");
+                }
+                4 => w.e("<+>"),
+                _ => w.e(",."),
+            }
+            w.e(">]");
+            // every pass moved right by one; the loop ends on the cleared cell after the array
+            w.cur = start + len;
+            if i.flag {
+                // walk back over the (possibly modified) elements with a leftward scan; it stops at the
+                // first zero element, so the pointer is unknown afterwards (like a scan idiom)
+                w.e("<[<]");
+                w.cur = start;
+            }
+        }
         K_DIVCAND => {
             w.go(a);
             let cand = DIV_CANDIDATES[(k as usize * 4 + m as usize) % DIV_CANDIDATES.len()];
@@ -586,7 +627,7 @@ impl StructProg {
 fn kind_table(div: bool) -> Vec<u8> {
     let mut t = vec![
         K_ADD, K_ADD, K_OUT, K_IN, K_CLEAR, K_MOVEADD, K_MOVEADD, K_MOVEADD, K_STEPLOOP, K_COPY, K_COPY, K_DOUBLING, K_MUL, K_GEOMETRIC, K_GEOMETRIC, K_TRIANGULAR, K_TRIANGULAR,
-        K_OUTLOOP, K_INLOOP, K_SCAN, K_NONUNIT, K_REFILL, K_IFELSE, K_COUNTUP, K_SUBTRACT, K_SQUARE, K_SWAP, K_IOCHAIN, K_IOCHAIN, K_CONSTLOOP,
+        K_OUTLOOP, K_INLOOP, K_SCAN, K_NONUNIT, K_REFILL, K_IFELSE, K_COUNTUP, K_SUBTRACT, K_SQUARE, K_SWAP, K_IOCHAIN, K_IOCHAIN, K_CONSTLOOP, K_ARRAY, K_ARRAY,
     ];
     if div {
         for _ in 0..6 {
